@@ -26,6 +26,9 @@ type Node struct {
 	Bools []bool   // O
 	Ints  []int64  // I
 	Uints []uint64 // U, and F as IEEE bit patterns (32-bit patterns for F4)
+	// F64, when set on an F4 leaf, holds the float64 ARGUMENTS to construct it from: values that
+	// are not exactly representable in binary32, whose narrowing float32(v) has the bits in Uints.
+	F64 []float64
 	// Generated leaves are written as "#seed,count" in case lines instead of being spelled out.
 	Gen  bool
 	Seed uint64
